@@ -457,7 +457,9 @@ func (g *c17Gen) siteGroup(f int, u *c17Pkg, pkgChoices []string, r *c17Rng) {
 		wenv := uenv.with(c17Loc{name: wp, kind: c17LInt}).fn()
 		wsig := &c17Glob{name: wname, kind: c17KFn, req: 1}
 		var wbody *c17N
-		g.defining(func() { wbody = c17Call("+", callOf(wenv, c17Call("+", c17Sym(wp), g.lit(r))), g.intExprNoCalls(wenv, r.fork())) })
+		g.defining(func() {
+			wbody = c17Call("+", callOf(wenv, c17Call("+", c17Sym(wp), g.lit(r))), g.intExprNoCalls(wenv, r.fork()))
+		})
 		wsig.lvl = msig.lvl + 1
 		g.emit(f, c17Call("defun", c17Sym(wname), c17List(c17Sym(wp)), wbody))
 		g.define(u, wsig)
